@@ -7,7 +7,11 @@ T == JsonDeserialize(IOEnv.VERIF_TRACE)
 VARIABLES tid, done, verdict
 vars == <<tid, done, verdict>>
 Init == tid \in 1..Len(T) /\ done = FALSE /\ verdict = ""
-Judge == /\ ~done /\ done' = TRUE /\ UNCHANGED tid /\ verdict' = C19Why(T[tid].dec_ok, T[tid].chk)
+\* kind "returns": one analysis (or the unused-variable query it is built on) asked on its own about a pickle whose program is
+\* built (self-referential containers as call arguments): it comes back - with a verdict or by raising - within the limit
+Why(R) == IF R.kind = "returns" THEN (IF R.returned THEN "ok" ELSE "does-not-return: " \o R.what)
+          ELSE C19Why(R.dec_ok, R.chk)
+Judge == /\ ~done /\ done' = TRUE /\ UNCHANGED tid /\ verdict' = Why(T[tid])
 Spec == Init /\ [][Judge]_vars
 Report == done => PrintT(<<"VERDICT", T[tid].id, ToJson([v |-> verdict])>>)
 =============================================================================
